@@ -340,6 +340,30 @@ func c19Case(f []string) (out string) {
 		b := c19Hex(f[1])
 		m, i := dhcp6.UnwrapRelay(b)
 		return fmt.Sprintf("unwrap=%s ; txid=%s ; %s ; info=%s ; m6=%s", c19Unwrap(b), c19Txid(b), c19Msg(m), c19Info(i), c19Msg(dhcp6.UnwrapRelayReply(b)))
+	case "relay4":
+		// relay4 giaddr policy opt82 pkt — plugins/dhcp4/relay|proxy handleForward, client -> server, on ONE buffer
+		raw := c19Hex(f[4])
+		SetGIAddr(raw, c19IP(f[1]))
+		IncrementHops(raw)
+		raw = InsertOption82(raw, c19Hex(f[3]), f[2])
+		return fmt.Sprintf("%s gp=%s gi=%s hops=%d", c19Show(raw), c19GP(raw), c19ShowN(GetGIAddr(raw)), GetHops(raw))
+	case "relayreply4":
+		// relayreply4 giaddr reply — relay provider, server -> client
+		gi := c19IP(f[1])
+		reply := StripOption82(c19Hex(f[2]))
+		sid := GetOptionIP(reply, OptServerID)
+		if sid == nil {
+			sid = gi
+		}
+		fr := WrapIPUDP(reply, sid, net.IPv4bcast)
+		return c19Show(fr) + " " + c19Sum4(fr) + " gp=" + c19GP(fr[28:])
+	case "proxyreply4":
+		// proxyreply4 giaddr lease reply — proxy provider, server -> client
+		gi := c19IP(f[1])
+		reply := StripOption82(c19Hex(f[3]))
+		reply = RewriteForProxy(reply, gi, uint32(c19U(f[2])))
+		fr := WrapIPUDP(reply, gi, net.IPv4bcast)
+		return fmt.Sprintf("%s %s gp=%s get=%s,%s,%s,%s", c19Show(fr), c19Sum4(fr), c19GP(fr[28:]), c19Get4(fr[28:], 54), c19Get4(fr[28:], 51), c19Get4(fr[28:], 58), c19Get4(fr[28:], 59))
 	case "pseq6":
 		// pseq6 proxyduid pref valid relayreply request — the DHCPv6 proxy's two-message sequence at function level
 		// (plugins/dhcp6/proxy/provider.go handleForwardAndRewrite): learn the server DUID from the ADVERTISE/REPLY,
